@@ -252,7 +252,7 @@ func (m *machine) retarget(c *conn, p command.Payload) {
 // were retargeted (or it has none).
 func (m *machine) drawCommand(c *conn) (name string, p command.Payload, effective bool) {
 	// a third of the draws follow the connection's state, so that deep states are reached often
-	if m.chance("guided", 1, 3) {
+	if m.chance("guided", 1, 2) {
 		switch c.state.class() {
 		case clNoSel:
 			name = pick(m, "guided-nosel", []string{"SELECT", "EXAMINE", "SELECT", "EXAMINE", "APPEND", "LIST"})
@@ -764,17 +764,16 @@ func run(t *rapid.T) {
 		m.jailBudget = 2
 	}
 
-	steps := rapid.IntRange(4, 24).Draw(t, "steps")
+	steps := rapid.IntRange(4, 20).Draw(t, "steps")
 
 	for i := 0; i < steps; i++ {
 		// connection: an existing one or a new one
 		var c *conn
 
-		k := m.n("conn", 0, min(len(w.conns), 3))
-		if k == len(w.conns) {
+		if len(w.conns) == 0 || (len(w.conns) < 4 && m.chance("new-conn", 1, 5)) {
 			c = w.dial()
 		} else {
-			c = w.conns[k]
+			c = w.conns[m.n("conn", 0, len(w.conns)-1)]
 		}
 
 		if c.state == stDead || c.afterOut >= 2 {
@@ -789,7 +788,7 @@ func run(t *rapid.T) {
 
 		loginWeight := 1
 		if cls == clNotAuth {
-			loginWeight = 4
+			loginWeight = 6
 		}
 
 		switch x := m.n("action", 0, 9+loginWeight); {
@@ -799,7 +798,7 @@ func run(t *rapid.T) {
 			m.command(c)
 		default:
 			kind := ""
-			if cls == clNotAuth && m.chance("login-right", 1, 2) {
+			if cls == clNotAuth && m.chance("login-right", 3, 5) {
 				kind = "right"
 			}
 
@@ -853,12 +852,6 @@ func run(t *rapid.T) {
 	for l, n := range w.labels {
 		ev.Class(l, n)
 	}
-
-	dbgCases++
-	dbgObs += w.nObserved
-	dbgAttempts += len(w.attempts)
-	dbgEpisodes += w.episodes
-	dbgSent += len(w.sent)
 
 	ev.Class("n:fresh-views", w.nObserved)
 	ev.Class("n:login-attempts", len(w.attempts))
